@@ -5,25 +5,25 @@ The task text contains only the property (from properties.jsonl), the earlier ch
 import json, sys
 root = sys.argv[1]
 prev = {
- 'C01': ["np.isclose(lb, ub) instead of lb == ub when classifying constraint rows in ConstrainedProblem.create_slacks", "Scaling/ScaledProblem scaling the constraint bounds with the wrong (dual/objective) weights", "a late-binding closure making every GRAD_FIXED release event of the integration solver watch the last pinned variable"],
- 'C02': ["skipping _check_terminate after a rejected step", "a stale deadline on a Timer created at construction / reused between solves", "Iterate.is_feasible measuring bound feasibility with active_tol via the cached active set"],
- 'C04': ["ScaledProblem.lag_hess mapping the multiplier back without the objective weight", "vectorised in-place rescaling of the Jacobian data returned by a caching callback", "np.isclose instead of == when classifying equality rows in create_slacks"],
- 'C05': ["StepResult._compute_xn skipping the clip when the predicted active set is empty", "Iterate.clipped() tolerating overshoots up to active_tol", "the Globalized line search clipping only its first (full) trial"],
- 'C06': ["a `<= 0` -> `< 0` guard in NewtonController.compute_tau (SmallestActiveSet) making np.min run on an empty array", "the symmetric step solver factorising outside its try block (raw LinearSolverError)", "MINRESSolver.solve dropping the trans keyword that the condition estimator passes"],
- 'C07': ["StepSolver.estimate_rcond no longer swallowing LinearSolverError (symmetric solver + report_rcond)", "ValidatingEvaluator letting NaN (but not inf) through", "print_problem_stats (the only start evaluation of the Hessian) returning early unless INFO logging is on"],
- 'C08': ["skipping the termination test after a rejected step", "the solver adopting a step that the penalty filter vetoed", "the Exact controller in-loop time-limit check turned into a break that lands on the accepted tail"],
- 'C09': ["computing the obj_nonlin / cons_nonlin display values eagerly outside StateData's try/except", "a positional-argument mix-up making the condition estimate the accept flag under report_rcond", "compute_step storing 1/dt in the controller inside the display branch"],
- 'C10': ["creating the penalty strategy in Solver.__init__ instead of in solve() (filter state survives)", "a cache of scaling exponents keyed by nnz in ScaledProblem", "DualNormUpdate keeping its penalty in params.rho"],
- 'C11': ["dropping np.copy in ConstrainedProblem.cons", "weights_from_nominal_values writing into its input array", "eval.astype converting the sparse matrix of the caller data in place under Precision.Single"],
- 'C12': ["advancing the model time before the penalty veto decision", "a `continue` for failed step computations that skips the iteration counter", "Callbacks dispatching from a tuple cached at the first dispatch (later registrations ignored)"],
- 'C13': ["a sign slip in the explicit-tau branch of ImplicitFunc.projection_initial", "keep_rows clearing rows in place on a CSR view sharing data with the cached Jacobian", "ActiveSet.at_upper no longer disjoint from at_both plus np.select in bounds_dual"],
- 'C14': ["building the asymmetric solver's matrix as CSC while overwrite_active_rows assumes CSR", "ActiveSetNewtonMethod no longer forwarding tau to its base class", "SymmetricStepSolver storing the lambda-shifted Hessian back and re-shifting after an active-set update"],
- 'C15': ["raising the lamb_max abort only for rejected steps", "fail_result using the controller's stored lamb instead of 1/dt", "ExactController testing convergence on the (lambda-scaled) function of the step solver"],
- 'C16': ["filter veto proposing 10*rho without storing it plus the solver adopting rho after a veto", "DualNormUpdate measuring the multipliers in the 2-norm", "the penalty strategy created in Solver.__init__ with rho initialised only in its constructor"],
- 'C17': ["LUSolver factoring the transpose of CSR input and combining the trans flag with `or`", "GMRES treating positive info (not converged) as success", "LUSolver asking SuperLU for SymmetricMode / diag_pivot_thresh=0 when symmetric=True"],
- 'C18': ["deleting from the entries list while iterating over it in filter_insert", "a merged single-pass filter_insert that accepts exact duplicates", "PenaltyFilter.update reporting params.rho instead of the penalty of the filter on accept"],
- 'C19': ["zeroing finite-difference entries outside the sparsity pattern in deriv_check", "DerivError computing its invalid-row mask with a different tolerance rule than the check", "a stale closure variable in the Hessian check of Solver._deriv_check finite difference"],
- 'C20': ["from_grad_jac giving zero-gradient variables weight 0 while prescaling with grad_weights", "scale_symmetric's for/else turned into an off-by-one check so that non-convergence never raises", "create_scaling evaluating through the evaluator (float32 rounding under Precision.Single)"],
+ 'C01': ["np.isclose(lb, ub) instead of lb == ub when classifying constraint rows in ConstrainedProblem.create_slacks", "Scaling/ScaledProblem scaling the constraint bounds with the wrong (dual/objective) weights", "a late-binding closure making every GRAD_FIXED release event of the integration solver watch the last pinned variable", "StepResult._compute_xn rewritten as a clipped step with the new point recomputed as x - dx (one-ulp rounding)"],
+ 'C02': ["skipping _check_terminate after a rejected step", "a stale deadline on a Timer created at construction / reused between solves", "Iterate.is_feasible measuring bound feasibility with active_tol via the cached active set", "Iterate.locally_infeasible accumulating J^T c with a fancy-index += that does not sum repeated indices"],
+ 'C04': ["ScaledProblem.lag_hess mapping the multiplier back without the objective weight", "vectorised in-place rescaling of the Jacobian data returned by a caching callback", "np.isclose instead of == when classifying equality rows in create_slacks", "the starting slacks taking the dtype of the caller's start point (integer truncation)"],
+ 'C05': ["StepResult._compute_xn skipping the clip when the predicted active set is empty", "Iterate.clipped() tolerating overshoots up to active_tol", "the Globalized line search clipping only its first (full) trial", "StepResult.iterate rebuilding the next point as x - dx in floating point"],
+ 'C06': ["a `<= 0` -> `< 0` guard in NewtonController.compute_tau (SmallestActiveSet) making np.min run on an empty array", "the symmetric step solver factorising outside its try block (raw LinearSolverError)", "MINRESSolver.solve dropping the trans keyword that the condition estimator passes", "SolverResult built with the user's problem so that a collected path of a problem with slacks fails the shape assertion"],
+ 'C07': ["StepSolver.estimate_rcond no longer swallowing LinearSolverError (symmetric solver + report_rcond)", "ValidatingEvaluator letting NaN (but not inf) through", "print_problem_stats (the only start evaluation of the Hessian) returning early unless INFO logging is on", "fail_result taking the step size from the controller's stored lamb"],
+ 'C08': ["skipping the termination test after a rejected step", "the solver adopting a step that the penalty filter vetoed", "the Exact controller in-loop time-limit check turned into a break that lands on the accepted tail", "the penalty strategies keeping their penalty in params.rho (shared Params object)"],
+ 'C09': ["computing the obj_nonlin / cons_nonlin display values eagerly outside StateData's try/except", "a positional-argument mix-up making the condition estimate the accept flag under report_rcond", "compute_step storing 1/dt in the controller inside the display branch", "SolverResult built with the user's problem (collect_path with slack rows asserts)"],
+ 'C10': ["creating the penalty strategy in Solver.__init__ instead of in solve() (filter state survives)", "a cache of scaling exponents keyed by nnz in ScaledProblem", "DualNormUpdate keeping its penalty in params.rho", "a class-level warm-start vector in GMRESSolver"],
+ 'C11': ["dropping np.copy in ConstrainedProblem.cons", "weights_from_nominal_values writing into its input array", "eval.astype converting the sparse matrix of the caller data in place under Precision.Single", "setdiag through a shallow copy.copy of the callback's Hessian in the asymmetric step solver"],
+ 'C12': ["advancing the model time before the penalty veto decision", "a `continue` for failed step computations that skips the iteration counter", "Callbacks dispatching from a tuple cached at the first dispatch (later registrations ignored)", "the path orientation guessed from its shape (square paths stored transposed)"],
+ 'C13': ["a sign slip in the explicit-tau branch of ImplicitFunc.projection_initial", "keep_rows clearing rows in place on a CSR view sharing data with the cached Jacobian", "ActiveSet.at_upper no longer disjoint from at_both plus np.select in bounds_dual", "bound_violation returning 0 whenever the active set's tolerance-relaxed 'satisfied' mask holds"],
+ 'C14': ["building the asymmetric solver's matrix as CSC while overwrite_active_rows assumes CSR", "ActiveSetNewtonMethod no longer forwarding tau to its base class", "SymmetricStepSolver storing the lambda-shifted Hessian back and re-shifting after an active-set update", "np.argsort (unstable above 16 elements) ordering the rows of the extended matrix"],
+ 'C15': ["raising the lamb_max abort only for rejected steps", "fail_result using the controller's stored lamb instead of 1/dt", "ExactController testing convergence on the (lambda-scaled) function of the step solver", "an elif that skips the upper-bound clip when some variable was clipped at its lower bound"],
+ 'C16': ["filter veto proposing 10*rho without storing it plus the solver adopting rho after a veto", "DualNormUpdate measuring the multipliers in the 2-norm", "the penalty strategy created in Solver.__init__ with rho initialised only in its constructor", "np.isclose deciding whether the solver adopts a changed penalty"],
+ 'C17': ["LUSolver factoring the transpose of CSR input and combining the trans flag with `or`", "GMRES treating positive info (not converged) as success", "LUSolver asking SuperLU for SymmetricMode / diag_pivot_thresh=0 when symmetric=True", "the GMRES early-exit residual not forwarding trans"],
+ 'C18': ["deleting from the entries list while iterating over it in filter_insert", "a merged single-pass filter_insert that accepts exact duplicates", "PenaltyFilter.update reporting params.rho instead of the penalty of the filter on accept", "the filter raising its penalty only once per prev_iterate object"],
+ 'C19': ["zeroing finite-difference entries outside the sparsity pattern in deriv_check", "DerivError computing its invalid-row mask with a different tolerance rule than the check", "a stale closure variable in the Hessian check of Solver._deriv_check finite difference", "the derivative check skipped on later solves of the same Solver"],
+ 'C20': ["from_grad_jac giving zero-gradient variables weight 0 while prescaling with grad_weights", "scale_symmetric's for/else turned into an off-by-one check so that non-convergence never raises", "create_scaling evaluating through the evaluator (float32 rounding under Precision.Single)", "a sign slip in an m == 0 shortcut of from_equilibrated_kkt"],
 }
 keys = {
  'C01': "solver.py (_check_terminate, result assembly), iterate.py (residuals, bounds_dual, active_set), active_set.py, transform.py, cons_problem.py, scale.py (unscale_*), integration/integration_solver.py",
@@ -70,7 +70,7 @@ Statement: {p['statement']}
 
 Quantifier: {p['quantifier']['text']}
 
-## This is the FOURTH seeded change for this property
+## This is the FIFTH seeded change for this property
 
 Earlier changes already exist:
 {earlier}
